@@ -4,7 +4,7 @@ import FunModel.ErrPolicy
 
     One model for `Iterator.ProcessParallel` (hence `itertool.ParallelForEach/Process/Worker`),
     `Transform.ProcessParallel` (= `fun.Map`, `itertool.Map`) and `Producer.GenerateParallel`
-    (= `itertool.Generate`), on the tree with the D10/D11 repairs:
+    (= `itertool.Generate`), on the tree with the D10 repair and the D11 repair for Map/GenerateParallel:
 
     * a *reader* goroutine (`Split`) moves items from the source into an unbuffered pipe
       (`read`, then the rendezvous `handoff w`); it checks its context before every read, so a
@@ -18,10 +18,18 @@ import FunModel.ErrPolicy
       step: `WithRecover` turns a panic into `Join(payload, ErrRecoveredPanic)`;
       `CanContinueOnError` (the decision table of `FunModel.ErrPolicy`) hands the error to the
       collector or not and says whether this worker goes on; if it does not, the worker returns
-      (`io.EOF` ends its `ReadAll`) and **cancels the group** — in all three constructs this is the
-      statement right after `CanContinueOnError` returned false (D11 repair).  For the generator,
-      whose "item" is one call of the producer, a plain `io.EOF` (an exhausted generator) ends the
-      worker without cancelling, because other workers may hold values not yet delivered.
+      (`io.EOF` ends its `ReadAll`).  Whether it also **cancels the group** depends on the construct
+      (`Cfg.groupCancel`):
+        - `Map` (`Transform.ProcessParallel`) and `GenerateParallel` do (D11 repair c9331e6): the
+          statement right after the processor / `CanContinueOnError` said "stop".  For the generator,
+          whose "item" is one call of the producer, a plain `io.EOF` (an exhausted generator) ends
+          the worker without cancelling, because other workers may hold values not yet delivered;
+        - `Iterator.ProcessParallel` and everything built on it (`itertool.ParallelForEach`,
+          `Process`, `Worker`) does NOT: the observer meant to cancel never fires because `ReadAll`
+          maps io.EOF to nil, and the unedited test TestParallelForEach/AbortOnPanic asserts that
+          the item after the failure is still processed, so this stays as it is (open finding
+          `ProcessParallel-family:abort-does-not-cancel-group`): the failing worker stops, the
+          others go on to the end of the input.
       Modelling assumption: this result handling is atomic with respect to the other goroutines'
       `start`s (the harness makes the same thing observable by holding new starts after a failing
       call returned until the cancellation is visible in the context it was given).
@@ -62,6 +70,8 @@ structure Cfg where
   conf : Conf
   n : Nat                   -- NumWorkers
   gen : Bool                -- GenerateParallel: a plain io.EOF does not cancel the group
+  groupCancel : Bool        -- a stopping result cancels the group context: true for Map and
+                            -- GenerateParallel, false for the ProcessParallel family
   recovers : Bool           -- the user function is wrapped in WithRecover (true for all constructs)
   excluded : List Nat       -- ids of the errors in ExcludedErrors
   outcome : Nat → Outcome
@@ -72,9 +82,12 @@ def Cfg.dec (c : Cfg) (x : Nat) : Decision := canContinue c.conf (c.cls x)
 def Cfg.cont (c : Cfg) (x : Nat) : Bool := (c.dec x).cont
 /-- the result of item `x` is handed to the ErrorHandler -/
 def Cfg.reports (c : Cfg) (x : Nat) : Bool := (c.dec x).reports != 0
-/-- finishing item `x` cancels the group -/
-def Cfg.cancels (c : Cfg) (x : Nat) : Bool :=
+/-- item `x` ends in a result after which the group ought to stop: the worker may not continue,
+    and it is not the plain io.EOF of an exhausted generator -/
+def Cfg.stops (c : Cfg) (x : Nat) : Bool :=
   !c.cont x && !(c.gen && (c.cls x).isEOF && !(c.cls x).hadPanic)
+/-- finishing item `x` cancels the group -/
+def Cfg.cancels (c : Cfg) (x : Nat) : Bool := c.groupCancel && c.stops x
 
 inductive WSt
   | idle                 -- in `ReadOne` of its split: context check passed, blocked in the receive select
@@ -175,6 +188,10 @@ def isCancelFin (c : Cfg) : Ev → Bool
   | .fin x _ => c.cancels x
   | _ => false
 
+def isStopFin (c : Cfg) : Ev → Bool
+  | .fin x _ => c.stops x
+  | _ => false
+
 /-- worker `w` has finished an item after which it may not go on -/
 def stoppedIn (c : Cfg) (w : Nat) : List Ev → Bool
   | [] => false
@@ -192,6 +209,13 @@ def afterCount (c : Cfg) : List Ev → Nat
   | [] => 0
   | .start _ _ :: l => afterCount c l + (if l.any (isCancelFin c) then 1 else 0)
   | _ :: l => afterCount c l
+
+/-- the quantity of the property: number of `start`s that happened after the first finished call
+    whose result stops the group ("items started after the first failure returned") -/
+def afterStop (c : Cfg) : List Ev → Nat
+  | [] => 0
+  | .start _ _ :: l => afterStop c l + (if l.any (isStopFin c) then 1 else 0)
+  | _ :: l => afterStop c l
 
 /-- the errors handed to the collector, in the order of the calls -/
 def collectedErrs (c : Cfg) (coll : List Nat) : List (Option Err) :=
@@ -218,7 +242,7 @@ def busyItems (ws : List WSt) : List Nat := ws.flatMap busyOf
 
     `log` is the observed event sequence (most recent first), `measured` says whether the harness
     held back new starts until the cancellation was visible (only then is the bound meaningful for
-    the implementation). The checks are exactly the statements proved for every reachable terminal
+    the implementation); the bound is judged only when the construct cancels its group. The checks are exactly the statements proved for every reachable terminal
     state in `FunProps.C03` (`terminal_allowed`). -/
 
 def countLe (xs input : List Nat) : Bool := xs.all (fun x => xs.count x ≤ input.count x)
@@ -227,7 +251,8 @@ structure Verdict where
   atMostOnce : Bool      -- every item started at most once, and only items of the input
   allFinished : Bool     -- every started item was finished (all goroutines have returned)
   stops : Bool           -- a worker that may not continue starts nothing more
-  bounded : Bool         -- starts after the first cancelling finish ≤ number of workers
+  bounded : Bool         -- starts after the first stopping finish ≤ number of workers (judged only
+                         -- for a construct that cancels its group, and only on a measured run)
   complete : Bool        -- if no finished item stops its worker, every item was processed
   deriving Repr
 
@@ -235,7 +260,7 @@ def judge (c : Cfg) (input : List Nat) (log : List Ev) (measured : Bool) : Verdi
   { atMostOnce := countLe (starts log) input
     allFinished := (starts log).isPerm (fins log)
     stops := workerStops c log
-    bounded := !measured || decide (afterCount c log ≤ c.n)
+    bounded := !(measured && c.groupCancel) || decide (afterStop c log ≤ c.n)
     complete := !((fins log).all c.cont) || (starts log).isPerm input }
 
 def Verdict.ok (v : Verdict) : Bool := v.atMostOnce && v.allFinished && v.stops && v.bounded && v.complete
